@@ -10,7 +10,7 @@ theorem reader_good : PGood reader := by
   unfold reader
   apply PGood.bind header_good
   intro h
-  exact PGood.forEach _ (entry_good _)
+  exact PGood.each _ (entry_good _)
 
 theorem fromExisting_good (b : Bytes) : Good (budget b.length) (fromExisting b) :=
   PGood.run reader_good b
